@@ -255,7 +255,7 @@ pub fn run(o: &Opts) -> R<()> {
     }
     let mut w = Ndjson::create(&out)?;
     if skip == 0 {
-        w.put(&json!({"ev": "begin"}));
+        w.put_now(&json!({"ev": "begin"}));
     }
     let mut fams = std::collections::BTreeMap::new();
     for (i, (fam, code, cfg)) in cases.iter().enumerate().skip(skip) {
@@ -266,7 +266,7 @@ pub fn run(o: &Opts) -> R<()> {
         let mut rec = run_case(code, cfg);
         rec["family"] = json!(fam);
         rec["index"] = json!(i);
-        w.put(&rec);
+        w.put_now(&rec);
         *fams.entry(fam.split(':').next().unwrap_or("?").to_string()).or_insert(0usize) += 1;
     }
     w.finish();
